@@ -12,6 +12,9 @@ MC_MODELS = {
     "MC_FragLive": {"tla": "MC_Frag.tla", "cfg": "MC_Frag_live.cfg", "workers": 8, "timeout": 900, "thorough_only": True},
     "MC_Rx": {"tla": "MC_Rx.tla", "cfg": "MC_Rx.cfg", "thorough_cfg": "MC_Rx_thorough.cfg", "workers": 8, "timeout": 2400},
     "MC_RxFaults": {"tla": "MC_Rx.tla", "cfg": "MC_RxFaults.cfg", "thorough_cfg": "MC_RxFaults_thorough.cfg", "workers": 8, "timeout": 2400},
+    # "off": actions this configuration switches off on purpose (faithful channel)
+    "MC_System": {"tla": "MC_System.tla", "cfg": "MC_System.cfg", "workers": 8, "timeout": 900, "off": ["Lose", "Twice"]},
+    "MC_SystemLossy": {"tla": "MC_System.tla", "cfg": "MC_System_lossy_quick.cfg", "thorough_cfg": "MC_System_lossy.cfg", "workers": 8, "timeout": 1800},
     "MC_Wire": {"tla": "MC_Wire.tla", "cfg": "MC_Wire.cfg", "workers": 6, "timeout": 600},
     "MC_Crc": {"tla": "MC_Crc.tla", "cfg": "MC_Crc.cfg", "thorough_cfg": "MC_Crc_thorough.cfg", "workers": 6, "timeout": 1200},
 }
@@ -21,6 +24,8 @@ GENERATORS = {
     "Gen_Memory": {"tla": "MC_Memory.tla", "cfg": "Gen_Memory.cfg", "thorough_cfg": "Gen_Memory_thorough.cfg", "timeout": 600},
     "Gen_Rx": {"tla": "MC_Rx.tla", "cfg": "Gen_Rx.cfg", "timeout": 600, "quick_simulate": [600, 10], "thorough_simulate": [6000, 10]},
     "Gen_RxFaults": {"tla": "MC_Rx.tla", "cfg": "Gen_RxFaults.cfg", "timeout": 600, "quick_simulate": [400, 10], "thorough_simulate": [4000, 10]},
+    "Gen_System": {"tla": "MC_System.tla", "cfg": "Gen_System.cfg", "timeout": 600, "quick_simulate": [300, 16], "thorough_simulate": [3000, 16]},
+    "Gen_SystemLossy": {"tla": "MC_System.tla", "cfg": "Gen_SystemLossy.cfg", "timeout": 600, "quick_simulate": [300, 16], "thorough_simulate": [3000, 16]},
     "Gen_Labels": {"tla": "MC_Labels.tla", "cfg": "Gen_Labels.cfg", "timeout": 900, "quick_sample": 1500},
 }
 
@@ -33,17 +38,19 @@ LABGEN = D("labels", "--scn", "@gen:Gen_Labels")
 TX = [D("lattice"), D("chains"), D("ext"), D("labels"), LABGEN]
 RX = [D("faults"), D("fuzzrx"), D("interleave"), D("frames"), D("memfaults"), RXGEN, RXGENF]
 UT = [D("utils")]
+SYS = D("sysscn", "--scn", "@gen:Gen_System")
+SYSL = D("sysscn", "--scn", "@gen:Gen_SystemLossy")
 # the same drivers over a second, independent implementation of the memory trait (alias-free, FIFO free list)
 X = lambda name: D(name, "--mem", "exact")  # noqa: E731
 
 PLAN = {
     "C01": {"mc": ["MC_Frag", "MC_FragReal"], "drivers": TX + [D("faults"), D("fuzzrx"), D("interleave"), D("frames"), D("memfaults")] + UT},
-    "C02": {"mc": ["MC_Frag", "MC_FragReal", "MC_FragLive", "MC_Rx"], "drivers": TX + RX + UT + [D("custcrc")]},
-    "C03": {"mc": ["MC_Rx", "MC_Crc"], "drivers": [RXGEN, D("faults"), D("chains"), D("ext"), D("fuzzrx"), D("interleave"), D("frames"), D("memfaults"), D("labels"), X("faults"), D("custcrc")] + UT},
-    "C04": {"apalache": ["ApaLabels"], "mc": ["MC_Labels"], "drivers": [D("labels"), LABGEN, D("chains"), D("lattice"), D("ext"), D("faults"), D("fuzzrx"), D("memfaults"), D("interleave"), D("frames")]},
+    "C02": {"mc": ["MC_Frag", "MC_FragReal", "MC_FragLive", "MC_Rx", "MC_System"], "drivers": TX + RX + UT + [D("custcrc"), SYS]},
+    "C03": {"mc": ["MC_Rx", "MC_Crc", "MC_SystemLossy"], "drivers": [SYSL, RXGEN, D("faults"), D("chains"), D("ext"), D("fuzzrx"), D("interleave"), D("frames"), D("memfaults"), D("labels"), X("faults"), D("custcrc")] + UT},
+    "C04": {"apalache": ["ApaLabels"], "mc": ["MC_Labels", "MC_System"], "drivers": [SYS, SYSL, D("labels"), LABGEN, D("chains"), D("lattice"), D("ext"), D("faults"), D("fuzzrx"), D("memfaults"), D("interleave"), D("frames")]},
     "C05": {"mc": ["MC_Wire", "MC_Rx"], "drivers": [D("fuzzrx"), D("faults"), D("ext"), D("chains"), D("labels"), D("interleave"), D("frames"), D("memfaults"), RXGEN, RXGENF, X("fuzzrx")] + UT},
     "C06": {"mc": ["MC_Frag", "MC_FragReal", "MC_Wire"], "drivers": TX + [D("interleave"), D("frames")] + UT},
-    "C07": {"mc": ["MC_Rx"], "drivers": [RXGEN, RXGENF, D("interleave"), D("frames"), D("faults"), D("fuzzrx"), D("memfaults"), D("chains"), D("ext"), D("labels"), X("interleave"), X("frames")] + UT},
+    "C07": {"mc": ["MC_Rx", "MC_System", "MC_SystemLossy"], "drivers": [SYS, SYSL, RXGEN, RXGENF, D("interleave"), D("frames"), D("faults"), D("fuzzrx"), D("memfaults"), D("chains"), D("ext"), D("labels"), X("interleave"), X("frames")] + UT},
     "C08": {"mc": ["MC_Rx", "MC_RxFaults", "MC_Memory"],
             "drivers": [RXGEN, RXGENF, D("memfaults"), D("fuzzrx"), D("faults"), D("interleave"), D("labels"), D("chains"), D("ext"), D("frames"), X("memfaults"), X("fuzzrx")] + UT},
     "C09": {"mc": ["MC_Labels", "MC_Frag"], "drivers": TX + [D("interleave"), D("frames")] + UT},
